@@ -45,6 +45,14 @@ def gen(rng, tier):
         for _ in range(reps):
             t, v = boundary_value(rng, s, d)
             yield f"try {s} {d} {hx(v)}", t
+        sb, ssigned, _ = type_bits(s)
+        db, _, _ = type_bits(d)
+        ks = sorted(set(k for k in (8, 16, 32, 64, 128, sb, db, sb - 1, db - 1) if 0 < k <= sb))
+        for k in ks:
+            for z in ((1 << k) - 1, 1 << (k - 1)):
+                yield f"try {s} {d} {hx(pat(z, sb))}", "pair-boundary"
+                if ssigned:
+                    yield f"try {s} {d} {hx(pat(-z, sb))}", "pair-boundary"
     for d in bn:
         yield f"try bool {d} 0", "bool"
         yield f"try bool {d} 1", "bool"
